@@ -32,6 +32,8 @@ import (
 	"github.com/elastos/Elastos.ELA/common/config"
 	"github.com/elastos/Elastos.ELA/core"
 	"github.com/elastos/Elastos.ELA/core/checkpoint"
+	pg "github.com/elastos/Elastos.ELA/core/contract/program"
+	"github.com/elastos/Elastos.ELA/core/types/payload"
 	"github.com/elastos/Elastos.ELA/core/transaction"
 	"github.com/elastos/Elastos.ELA/core/types"
 	ctypes "github.com/elastos/Elastos.ELA/core/types/common"
@@ -100,6 +102,9 @@ func setupFixture(scr string, thorough bool) {
 	buildMenu(thorough)
 	db.txs[fund[0].Hash()] = fund[0]
 	db.txs[fund[1].Hash()] = fund[1]
+	fund2 = functions.CreateTransaction(ctypes.TxVersion09, ctypes.TransferAsset, 0, &payload.TransferAsset{},
+		[]*ctypes.Attribute{{Usage: ctypes.Nonce, Data: []byte("F2")}}, nil, plainOutputs(256, 1000000), 0, []*pg.Program{})
+	db.txs[fund2.Hash()] = fund2
 	// resolve every reference once so later lookups are plain cache hits
 	for _, m := range menu {
 		if _, err := chain.UTXOCache.GetTxReference(m.real); err != nil {
@@ -342,13 +347,21 @@ func main() {
 	}
 	if r.Replay != "" {
 		var a struct {
+			System  string   `json:"system"`
 			History []string `json:"history"`
 		}
 		r.LoadReplay(&a)
-		replayVerbose(r, a.History)
+		if a.System == "pairs" {
+			fmt.Println("replaying the pair stage (all classes)")
+			runPairStage(r)
+		} else {
+			replayVerbose(r, a.History)
+		}
 		os.RemoveAll(scr)
 		r.Finish(evid.Coverage{})
 	}
+	// stage 2: every (slot, transaction type) pair of the conflict table
+	ps := runPairStage(r)
 	res := mc.Explore(r, sp)
 	var names []string
 	for _, m := range menu {
@@ -360,6 +373,11 @@ func main() {
 	cov["op_outcomes"] = cnt.m
 	cnt.mu.Unlock()
 	cov["pool_byte_limit"] = limit
+	cov["pair_stage"] = map[string]interface{}{"classes": ps.classes, "ordered_pairs": ps.pairs, "histories": ps.histories, "operations": ps.ops,
+		"second_tx_rejected": ps.rejectedSecond, "second_tx_admitted": ps.admittedSecond, "registered_slot_type_pairs": len(mempool.VerifConflictTable()),
+		"rule": "for every conflict slot and every ordered pair of transaction kinds registered for it (kinds of different slots never meet), two real typed transactions sharing only that slot's key: histories A / B / A,B / A,B,blk / A,blk,B / A,B,A on a fresh pool; never both pooled, slot entry present, no dangling entries, fee list/size/budget consistent; registered (slot,type) pairs without a class-table entry = engine error"}
+	cov["transitions"] = res.Transitions + int64(ps.ops)
+	cov["traces_validated_against_impl"] = res.Executions + int64(ps.histories)
 	cov["real_code_witness"] = "real DPoS State processed RegisterProducer(k0) and the menu's UP2; the real UpdateProducerTransaction.SpecialContextCheck then accepts the menu's UP1 (and UP1 before the update): the model rule 'a further update of a registered producer stays valid' is the repository's"
 	r.Assume = append(r.Assume,
 		"SanityCheck is stubbed (always passes) and ContextCheck is answered by the harness's chain model (inputs unspent and parent connected; Register*/proposal/withdraw/side-chain hashes: invalid once the key is used on chain; UpdateProducer/UpdateCR: valid while the producer/CR is registered and the new nickname/node key is not taken by another one — the rule of the repository's SpecialContextCheck); everything else (type, payload, inputs, fee, size, hash) is the real transaction's",
